@@ -1468,9 +1468,9 @@ def rule_codec(prog):
                         ce = hir.strip(f_["e"])
     ok = (ce.get("k") == "Binary" and ce["op"] == "+") if ce is not None else None
     out.add("LSCodec::decode", "content_end = content_start + content_length", ok, c.loc(dec["sp"]), "")
-    lits = [n["lit"].get("v") for n in hir.nodes_deep(prog, dec["body"]) if n.get("k") == "Lit" and n["lit"]["k"] == "str"]
+    lits = [n["lit"].get("v") for n in hir.nodes_deep(prog, dec["body"], 2, values=True) if n.get("k") == "Lit" and n["lit"]["k"] == "str"]
     # (a header name kept in a constant counts as written where the constant is used)
-    for n in hir.nodes_deep(prog, dec["body"], 3, crate=c):
+    for n in hir.nodes_deep(prog, dec["body"], 3, crate=c, values=True):
         if n.get("k") == "Path" and n["res"].get("k") == "Def" and str(n["res"].get("dk", "")).startswith(("Const", "AssocConst")):
             cb_ = prog.body(n["res"].get("p") or "")
             v_ = hir.lit_value(cb_["body"]) if cb_ is not None else None
@@ -1479,12 +1479,12 @@ def rule_codec(prog):
     out.add("LSCodec::decode", "length is read from the `Content-Length` header", "Content-Length" in lits, c.loc(dec["sp"]), "string literals: %s" % lits)
     # header field names are case-insensitive (the base protocol's header part follows HTTP semantics)
     exact = None
-    for bn in hir.nodes_deep(prog, dec["body"], 3, crate=c):
+    for bn in hir.nodes_deep(prog, dec["body"], 3, crate=c, values=True):
         if bn.get("k") == "Binary" and bn["op"] in ("==", "!=") and any(
                 y.get("k") == "Lit" and y["lit"].get("k") == "str" and str(y["lit"].get("v")).lower() == "content-length" for y in hir.nodes(bn)):
             exact = bn
     insens = any(x.get("k") == "MethodCall" and x["m"] in ("eq_ignore_ascii_case", "to_ascii_lowercase", "to_lowercase", "to_ascii_uppercase")
-                 for x in hir.nodes_deep(prog, dec["body"], 3, crate=c))
+                 for x in hir.nodes_deep(prog, dec["body"], 3, crate=c, values=True))
     out.add("LSCodec::decode", "the Content-Length header is recognised in any case", insens and exact is None, c.loc((exact or dec)["sp"]),
             "the header name is compared with `==`: `content-length: 52` is rejected as invalid headers, the session ends with status 1 and the "
             "request is never answered", ("hdrcase",))
